@@ -13,7 +13,7 @@ from props import c04, c05
 
 ID = "C09"
 LEVEL = "exploration"
-BUDGET = {"quick": (8, 45), "thorough": (16, 700)}
+BUDGET = {"quick": (8, 45), "thorough": (16, 1000)}
 K = 3
 RULE = ("Generated OCP (all sampling methods, grids) with global scalar/vector/matrix, per-interval (control), per-node (control with include_last) and horizon parameters appearing in "
         "dynamics, objective terms, constraint bodies and bounds and in an initial guess; a generated history of set_value calls interleaved with queries and limited solves. Oracles: "
